@@ -663,8 +663,8 @@ fn main() {
         let shape = PcsShape {
             params: pcs::Params { log_blowup: 1, log_final_poly_len: 0, max_log_arity: 1, num_queries: 1, commit_pow_bits: 0, query_pow_bits: 0 },
             rounds: vec![
-                vec![pcs::MatSpec { log_h: 3, width: 2, two_points: false }],
-                vec![pcs::MatSpec { log_h: 2, width: 2, two_points: false }],
+                vec![pcs::MatSpec::new(3, 2, false)],
+                vec![pcs::MatSpec::new(2, 2, false)],
             ],
         };
         let case = PcsCase::new(&shape, ctx.seed).unwrap_or_else(|e| machinery_error(&format!("cannot build F2 probe: {e}")));
@@ -694,7 +694,7 @@ fn main() {
     let mut foreign = vec![];
     if want("probes") && !ctx.out_of_time() {
         let base = pcs::Params { log_blowup: 1, log_final_poly_len: 0, max_log_arity: 1, num_queries: 2, commit_pow_bits: 0, query_pow_bits: 0 };
-        let rounds = vec![vec![pcs::MatSpec { log_h: 5, width: 2, two_points: false }]];
+        let rounds = vec![vec![pcs::MatSpec::new(5, 2, false)]];
         let verifier_case = PcsCase::new(&PcsShape { params: base.clone(), rounds: rounds.clone() }, ctx.seed)
             .unwrap_or_else(|e| machinery_error(&e));
         for (what, pp) in [
